@@ -3,6 +3,7 @@ import Pocket.Model.HllFloat
 import Pocket.Model.Kind
 import Pocket.Model.Store
 import Pocket.Model.Keys
+import Pocket.Model.EventMap
 import Pocket.Model.Verify
 /-
 pocket-model: answers the line protocol of DESIGN.md Appendix B from the Lean model.
@@ -138,6 +139,9 @@ def kndDigest (lo hi : Nat) : UInt64 := Id.run do
     h := fnvStep h b
   return h
 
+/-- the chunk the debug worker grows the event map by -/
+def DEBUG_CHUNK : Nat := 2048
+
 def handleTypes (cmd : String) (a : List String) : Option String :=
   match cmd, a with
   | "PING", _ => some "pong"
@@ -145,6 +149,19 @@ def handleTypes (cmd : String) (a : List String) : Option String :=
     let inp ← unhex j
     let buf := dirtyBuf (← len.toNat?) (← seed.toNat?).toUInt64
     some (fmtOutcome (parseEvent inp buf) fun (c, l, b) => s!"ok {c} {l} {toHex b}")
+  | "EMX", [fl, mk, size] => do
+    -- the durable (file length, end marker) pairs a kill inside store_event can leave, each as the next open sees it
+    let fl ← fl.toNat?
+    let mk ← mk.toNat?
+    let size ← size.toNat?
+    match emOpen DEBUG_CHUNK fl mk with
+    | .ok m =>
+      let sts := (emStoreStates DEBUG_CHUNK m size).map fun (f, k) =>
+        match emOpen DEBUG_CHUNK f k with
+        | .ok m' => s!"{m'.fileLen}:{m'.marker}"
+        | _ => "err"
+      some ("ok " ++ joinOr sts)
+    | _ => some "err"
   | "DLN", [b, total] => do
     let b ← unhex b
     let n ← total.toNat?
@@ -371,28 +388,53 @@ def handleStore (s : Store) (cmd : String) (a : List String) : Option (Store × 
     | none => some (s, "notable")
   | _, _ => none
 
-partial def loop (h : IO.FS.Stream) (out : IO.FS.Stream) (s : Store) : IO Unit := do
+def emFresh : EMap := match emOpen DEBUG_CHUNK 0 0 with
+  | .ok m => m
+  | _ => { fileLen := 0, marker := 0, memLen := 0, mapLen := 0 }
+
+/-- follow the event-map file through a store request: an append happened iff the end moved -/
+def emAfter (em : EMap) (cmd : String) (s s' : Store) : EMap :=
+  match cmd with
+  | "NEW" | "RMD" => emFresh
+  | "OPN" | "CLS" => (match emOpen DEBUG_CHUNK em.fileLen em.marker with | .ok m => m | _ => em)
+  | "RBD" =>
+    -- a new file: the live events are appended again, in the order of the rebuilt log
+    s'.log.foldl (fun m x => match emStore DEBUG_CHUNK m (eventLen x.e) with | .ok (_, m') => m' | _ => m) emFresh
+  | "STO" =>
+    if s'.end = s.end then em
+    else match s'.log.getLast? with
+      | some x => (match emStore DEBUG_CHUNK em (eventLen x.e) with | .ok (_, m') => m' | _ => em)
+      | none => em
+  | _ => em
+
+partial def loop (h : IO.FS.Stream) (out : IO.FS.Stream) (s : Store) (em : EMap) : IO Unit := do
   let line ← h.getLine
   if line.isEmpty then return ()
   let line := line.trimAscii.toString
   let mut s := s
+  let mut em := em
   if line.isEmpty || line.startsWith "#" then
     out.putStrLn "#"
   else
     let toks := line.splitOn " "
     match toks with
     | cmd :: a =>
+      if cmd == "MLN" then
+        -- the file length, and a cross-check of the two models: the map's end marker is the store's end
+        out.putStrLn (if em.marker = s.end then s!"{em.fileLen}" else s!"{em.fileLen} MODEL-INCONSISTENT marker={em.marker} end={s.end}")
+      else
       match handleTypes cmd a with
       | some r => out.putStrLn r
       | none =>
         match handleStore s cmd a with
         | some (s', r) =>
+          em := emAfter em cmd s s'
           s := s'
           out.putStrLn r
         | none => out.putStrLn "bad-request"
     | [] => out.putStrLn "bad-request"
   out.flush
-  loop h out s
+  loop h out s em
 
 def main : IO Unit := do
-  loop (← IO.getStdin) (← IO.getStdout) {}
+  loop (← IO.getStdin) (← IO.getStdout) {} emFresh
